@@ -201,6 +201,16 @@ func (sqlite *SQLiteDB) SaveProofs(proofs cashu.Proofs) error {
 		}
 		Yhex := hex.EncodeToString(Y.SerializeCompressed())
 
+		// a proof that is pending (locked by a melt) cannot be marked as spent.
+		// Checked in the same transaction as the insert.
+		if exists, err := rowExists(tx, "SELECT 1 FROM pending_proofs WHERE y = ?", Yhex); err != nil || exists {
+			tx.Rollback()
+			if err != nil {
+				return err
+			}
+			return errors.New("proof is pending")
+		}
+
 		if _, err := stmt.Exec(Yhex, proof.Amount, proof.Id, proof.Secret, proof.C, proof.Witness); err != nil {
 			tx.Rollback()
 			return err
@@ -212,6 +222,18 @@ func (sqlite *SQLiteDB) SaveProofs(proofs cashu.Proofs) error {
 	}
 
 	return nil
+}
+
+func rowExists(tx *sql.Tx, query string, arg string) (bool, error) {
+	var one int
+	err := tx.QueryRow(query, arg).Scan(&one)
+	if errors.Is(err, sql.ErrNoRows) {
+		return false, nil
+	}
+	if err != nil {
+		return false, err
+	}
+	return true, nil
 }
 
 func (sqlite *SQLiteDB) GetProofsUsed(Ys []string) ([]storage.DBProof, error) {
@@ -272,6 +294,16 @@ func (sqlite *SQLiteDB) AddPendingProofs(proofs cashu.Proofs, quoteId string) er
 			return err
 		}
 		Yhex := hex.EncodeToString(Y.SerializeCompressed())
+
+		// a proof that was already spent cannot be set as pending.
+		// Checked in the same transaction as the insert.
+		if exists, err := rowExists(tx, "SELECT 1 FROM proofs WHERE y = ?", Yhex); err != nil || exists {
+			tx.Rollback()
+			if err != nil {
+				return err
+			}
+			return errors.New("proof already used")
+		}
 
 		if _, err := stmt.Exec(Yhex, proof.Amount, proof.Id, proof.Secret, proof.C, proof.Witness, quoteId); err != nil {
 			tx.Rollback()
@@ -388,6 +420,37 @@ func (sqlite *SQLiteDB) RemovePendingProofs(Ys []string) error {
 	}
 
 	return nil
+}
+
+func (sqlite *SQLiteDB) SettlePendingProofs(Ys []string) error {
+	tx, err := sqlite.db.Begin()
+	if err != nil {
+		return err
+	}
+
+	for _, y := range Ys {
+		result, err := tx.Exec(`INSERT INTO proofs (y, amount, keyset_id, secret, c, witness)
+			SELECT y, amount, keyset_id, secret, c, witness FROM pending_proofs WHERE y = ?`, y)
+		if err != nil {
+			tx.Rollback()
+			return err
+		}
+		count, err := result.RowsAffected()
+		if err != nil {
+			tx.Rollback()
+			return err
+		}
+		if count != 1 {
+			tx.Rollback()
+			return errors.New("proof is not pending")
+		}
+		if _, err := tx.Exec("DELETE FROM pending_proofs WHERE y = ?", y); err != nil {
+			tx.Rollback()
+			return err
+		}
+	}
+
+	return tx.Commit()
 }
 
 func (sqlite *SQLiteDB) SaveMintQuote(mintQuote storage.MintQuote) error {
